@@ -47,6 +47,8 @@ def handler_methods(cls):
 
 
 def check(prog, run):
+    from . import c06 as _c06t
+    _c06t.check_conditionless_fragment_type(prog, run, "T1")   # = C06.T1
     from . import c06 as _c06p
     _c06p.check_all_pairs_within(prog, run, "P1")   # = C06.P1
     from . import c06 as _c06v
